@@ -112,7 +112,8 @@ def gen_ovf(rng, doctype: str = "", lead: str = ""):
     disks = {}
     for fid in list(files):
         if rng.random() < 0.8:
-            did = rng.choice(["vmdisk", "ovfdisk", "disk", "d", "o", "v", "f"]) + "".join(rng.choice("0123456789abov:" if rng.random() < 0.3 else "0123456789abov") for _ in range(rng.randrange(0, 5)))
+            # ids are plain strings; tools number clones "vmdisk#2", and nothing keeps "?" or ";" out of them either
+            did = rng.choice(["vmdisk", "ovfdisk", "disk", "d", "o", "v", "f"]) + "".join(rng.choice("0123456789abov:" if rng.random() < 0.3 else ("0123456789abov#?;" if rng.random() < 0.3 else "0123456789abov")) for _ in range(rng.randrange(0, 5)))
             if did not in disks:
                 disks[did] = fid
     items = []
